@@ -390,7 +390,7 @@ func TestLayouts(t *testing.T) {
 			rec.Note("known-finding-no-longer-reproduces", knownBothClass)
 		}
 	}
-	ev.Check(t, rec, 120, 1500, func(rt *rapid.T) {
+	ev.Check(t, rec, 300, 1500, func(rt *rapid.T) {
 		l := drawLayout(rt)
 		if aborted {
 			return
